@@ -40,3 +40,242 @@ class ComputeBounds:
 
     def ensures(geometry, result):
         return result == bounds_of(geometry) and result[0] <= result[2] and result[1] <= result[3]
+
+
+# =================================================================================================
+# C03 — validity and normal form of the nine geometry types (spec written from the property text)
+# =================================================================================================
+def valid_time(t):
+    return t >= 0
+
+
+def valid_point(p):
+    return len(p) == 2 and p[0] >= 0 and 0 <= p[1] and p[1] <= MAX_FREQUENCY
+
+
+def valid_points(ps, minimum):
+    return len(ps) >= minimum and forall(len(ps), lambda i: valid_point(ps[i]))
+
+
+def valid_timestamp(c):
+    return valid_time(c)
+
+
+def valid_timeinterval(c):
+    return len(c) == 2 and c[0] >= 0 and c[1] >= 0 and c[0] <= c[1]
+
+
+def valid_boundingbox(c):
+    # any two corners are accepted and normalised; every coordinate must be in range
+    return (len(c) == 4 and c[0] >= 0 and c[2] >= 0
+            and 0 <= c[1] and c[1] <= MAX_FREQUENCY and 0 <= c[3] and c[3] <= MAX_FREQUENCY)
+
+
+def valid_linestring(c):
+    return valid_points(c, 2)
+
+
+def valid_polygon(c):
+    return len(c) >= 1 and forall(len(c), lambda r: valid_points(c[r], 3))
+
+
+def valid_multipoint(c):
+    return valid_points(c, 1)
+
+
+def strictly_forward(line):
+    return line[0][0] < line[len(line) - 1][0]
+
+
+def valid_multilinestring(c):
+    return len(c) >= 1 and forall(len(c), lambda l: valid_points(c[l], 2) and strictly_forward(c[l]))
+
+
+def valid_multipolygon(c):
+    return len(c) >= 1 and forall(len(c), lambda p: len(c[p]) >= 1 and forall(len(c[p]), lambda r: valid_points(c[p][r], 3)))
+
+
+def normal_boundingbox(c):
+    return [min(c[0], c[2]), min(c[1], c[3]), max(c[0], c[2]), max(c[1], c[3])]
+
+
+def normal_linestring(c):
+    return c[::-1] if c[0][0] > c[len(c) - 1][0] else c
+
+
+class NewTimeStamp:
+    target = "soundevent.data.geometries:TimeStamp"
+    types = {"coordinates": "float"}
+    result = "Obj:soundevent.data.geometries.TimeStamp"
+
+    def raises_ValidationError(coordinates):
+        return not valid_timestamp(coordinates)
+
+    def ensures(coordinates, result):
+        return result.type == "TimeStamp" and result.coordinates == coordinates and valid_timestamp(result.coordinates)
+
+
+class NewTimeInterval:
+    target = "soundevent.data.geometries:TimeInterval"
+    types = {"coordinates": "List[float]"}
+    result = "Obj:soundevent.data.geometries.TimeInterval"
+
+    def raises_ValidationError(coordinates):
+        return not valid_timeinterval(coordinates)
+
+    def ensures(coordinates, result):
+        return (result.type == "TimeInterval" and result.coordinates == coordinates
+                and valid_timeinterval(result.coordinates))
+
+
+class NewPoint:
+    target = "soundevent.data.geometries:Point"
+    types = {"coordinates": "List[float]"}
+    result = "Obj:soundevent.data.geometries.Point"
+
+    def raises_ValidationError(coordinates):
+        return not valid_point(coordinates)
+
+    def ensures(coordinates, result):
+        return result.type == "Point" and result.coordinates == coordinates and valid_point(result.coordinates)
+
+
+class NewBoundingBox:
+    target = "soundevent.data.geometries:BoundingBox"
+    types = {"coordinates": "List[float]"}
+    result = "Obj:soundevent.data.geometries.BoundingBox"
+
+    def raises_ValidationError(coordinates):
+        return not valid_boundingbox(coordinates)
+
+    def ensures(coordinates, result):
+        r = result.coordinates
+        return (result.type == "BoundingBox" and r == normal_boundingbox(coordinates)
+                and valid_boundingbox(r) and r[0] <= r[2] and r[1] <= r[3]          # normal form
+                and normal_boundingbox(r) == r)                                      # re-validation is a fixpoint
+
+
+class NewLineString:
+    target = "soundevent.data.geometries:LineString"
+    types = {"coordinates": "List[List[float]]"}
+    result = "Obj:soundevent.data.geometries.LineString"
+
+    def raises_ValidationError(coordinates):
+        return not valid_linestring(coordinates)
+
+    def ensures(coordinates, result):
+        r = result.coordinates
+        return (result.type == "LineString" and r == normal_linestring(coordinates)
+                and valid_linestring(r) and r[0][0] <= r[len(r) - 1][0]            # runs forward in time
+                and normal_linestring(r) == r)
+
+
+class NewPolygon:
+    target = "soundevent.data.geometries:Polygon"
+    types = {"coordinates": "List[List[List[float]]]"}
+    result = "Obj:soundevent.data.geometries.Polygon"
+
+    def raises_ValidationError(coordinates):
+        return not valid_polygon(coordinates)
+
+    def ensures(coordinates, result):
+        return result.type == "Polygon" and result.coordinates == coordinates and valid_polygon(result.coordinates)
+
+
+class NewMultiPoint:
+    target = "soundevent.data.geometries:MultiPoint"
+    types = {"coordinates": "List[List[float]]"}
+    result = "Obj:soundevent.data.geometries.MultiPoint"
+
+    def raises_ValidationError(coordinates):
+        return not valid_multipoint(coordinates)
+
+    def ensures(coordinates, result):
+        return result.type == "MultiPoint" and result.coordinates == coordinates and valid_multipoint(result.coordinates)
+
+
+class NewMultiLineString:
+    target = "soundevent.data.geometries:MultiLineString"
+    types = {"coordinates": "List[List[List[float]]]"}
+    result = "Obj:soundevent.data.geometries.MultiLineString"
+
+    def raises_ValidationError(coordinates):
+        return not valid_multilinestring(coordinates)
+
+    def ensures(coordinates, result):
+        return (result.type == "MultiLineString" and result.coordinates == coordinates
+                and valid_multilinestring(result.coordinates))
+
+
+class NewMultiPolygon:
+    target = "soundevent.data.geometries:MultiPolygon"
+    types = {"coordinates": "List[List[List[List[float]]]]"}
+    result = "Obj:soundevent.data.geometries.MultiPolygon"
+
+    def raises_ValidationError(coordinates):
+        return not valid_multipolygon(coordinates)
+
+    def ensures(coordinates, result):
+        return (result.type == "MultiPolygon" and result.coordinates == coordinates
+                and valid_multipolygon(result.coordinates))
+
+
+GEOMETRY_CONTRACTS = ["NewTimeStamp", "NewTimeInterval", "NewPoint", "NewBoundingBox", "NewLineString", "NewPolygon",
+                      "NewMultiPoint", "NewMultiLineString", "NewMultiPolygon"]
+
+
+# ---- geometry_validate (dict and attribute modes; the JSON mode is the dict mode after json.loads) ----------
+def valid_by_tag(tag, c):
+    if tag == "TimeStamp":
+        return valid_timestamp(c)
+    if tag == "TimeInterval":
+        return valid_timeinterval(c)
+    if tag == "Point":
+        return valid_point(c)
+    if tag == "BoundingBox":
+        return valid_boundingbox(c)
+    if tag == "LineString":
+        return valid_linestring(c)
+    if tag == "Polygon":
+        return valid_polygon(c)
+    if tag == "MultiPoint":
+        return valid_multipoint(c)
+    if tag == "MultiLineString":
+        return valid_multilinestring(c)
+    if tag == "MultiPolygon":
+        return valid_multipolygon(c)
+    return False
+
+
+def normal_by_tag(tag, c):
+    if tag == "BoundingBox":
+        return normal_boundingbox(c)
+    if tag == "LineString":
+        return normal_linestring(c)
+    return c
+
+
+class GeometryValidate:
+    """obj is a mapping / attribute object {type: tag, coordinates: c}; the driver fixes tag and mode."""
+    target = "soundevent.data.geometries:geometry_validate"
+    types = {}
+    result = "Opq:Geometry"
+
+    def raises_ValueError(obj):
+        return not valid_by_tag(get_field(obj, "type"), get_field(obj, "coordinates"))
+
+    def ensures(obj, result):
+        tag = get_field(obj, "type")
+        return (result.type == tag and class_tag(result) == tag
+                and result.coordinates == normal_by_tag(tag, get_field(obj, "coordinates")))
+
+
+def get_field(obj, name):
+    if isinstance(obj, dict):
+        return obj[name]
+    return getattr(obj, name)
+
+
+def class_tag(geometry):
+    """the type tag declared by the *class* of the object (native: the class's own default)"""
+    return type(geometry).model_fields["type"].default
